@@ -4,7 +4,7 @@
 #  (2) demo with bug fails  (3) demo without bug passes
 set -u
 export CARGO_TARGET_DIR=/tmp/seedtarget CARGO_NET_OFFLINE=true
-W=/tmp/wt-val
+W=${W:-/tmp/wt-val}
 [ -d $W ] || git -C /repo worktree add -f $W HEAD >/dev/null 2>&1
 for P in "$@"; do
   S=/verif/seeded/$P
